@@ -334,7 +334,9 @@ def az_el_mask(c, rec):
     if e0 <= -90.0:
         e0 = -89.0
     cfg = constructFromUnion(SensorConfig, {
-        "type": "optical", "azimuth_range": [a0, a1], "elevation_range": [e0, e1], "covariance": [[1e-12, 0], [0, 1e-12]],
+        "type": "optical", "azimuth_range": [a0, a1],
+        # the elevation limits are documented as order independent: half of the cases give them high-to-low
+        "elevation_range": [e1, e0] if (int(round(c["az"] * 1e6)) % 2) else [e0, e1], "covariance": [[1e-12, 0], [0, 1e-12]],
         "aperture_diameter": 1.0, "efficiency": 0.9, "slew_rate": 5.0})
     sensor = sensorFactory(cfg)
     host_pos = np.array([RE + 1.0, 0, 0, 0, 0, 0.0])
